@@ -12,12 +12,15 @@ CORPORA = [
     ["one", "two words", "three words here", "four words are here"],
     ["This is a sentence.", "Another SENTENCE here, this one!", "is is is"],
     ["x y", "y z", "z x", ""],
+    ["The Cat and THE dog", "Is it A cat", "the the The", "AND"],          # upper-case forms of stop words (kept when lowercase=False)
 ]
 OPTIONS = [dict(), dict(ngram_range=(1, 2)), dict(ngram_range=(2, 2)), dict(ngram_range=(1, 3)), dict(ngram_range=(2, 3)),
            dict(ngram_range=(1, 2), stop_words=["the", "is", "a"]), dict(stop_words="english", ngram_range=(1, 2)), dict(lowercase=False, ngram_range=(1, 2)),
            dict(min_df=2), dict(max_df=0.7, ngram_range=(1, 2)), dict(max_features=5, ngram_range=(1, 2)), dict(binary=True, ngram_range=(1, 2)),
            dict(stop_words=["the", "is", "a", "hello"]), dict(stop_words="english"), dict(ngram_range=(3, 3)), dict(binary=True, lowercase=False),
-           dict(ngram_range=(2, 2), stop_words=["the", "words", "x"])]
+           dict(ngram_range=(2, 2), stop_words=["the", "words", "x"]),
+           dict(lowercase=False, stop_words=["the", "is", "a", "and"]), dict(lowercase=False, stop_words=["the", "is", "a", "and"], ngram_range=(1, 2)),
+           dict(lowercase=False, stop_words="english", ngram_range=(1, 2))]
 
 
 def cases(tier, seed):
